@@ -145,6 +145,17 @@ def check_matrix(REC, bct, A, L, scheme, directed, big=False):
             if ok:
                 m = off & fin
                 REC.check(PROP, 'charpath', 'lambda_finite_only', close(res[0], D[m].mean(), rtol=1e-12), dict(D=D, got=res[0]))
+        # the two flags in every spelling a caller produces (a comparison of numpy values yields np.bool_, a
+        # configuration file 0 / 1): the meaning must be that of the Python bool
+        for idg, iinf in ((np.False_, np.True_), (0, 1), (np.False_, np.False_), (0, 0), (False, np.bool_(False))):
+            if not iinf and not fin[off].any():
+                continue
+            ok, res = call(REC, PROP, 'charpath', bct.charpath, D, include_diagonal=idg, include_infinite=iinf)
+            if ok:
+                m = off & (fin if not iinf else np.ones_like(fin))
+                REC.check(PROP, 'charpath', 'flag_spelling', close(res[0], D[m].mean(), rtol=1e-12) and
+                          close(res[1], (1.0 / D[m]).mean(), rtol=1e-12),
+                          dict(D=D, got=[res[0], res[1]], include_diagonal=repr(idg), include_infinite=repr(iinf)))
     if scheme == 'bin':
         # ---- binary routines
         ok, Db = call(REC, PROP, 'distance_bin', bct.distance_bin, A)
